@@ -586,6 +586,13 @@ def is_in_polygon(polygon, points, ncaps=0):
     usencaps = p['ncaps']
     if ncaps > 0:
         usencaps = min(ncaps, p['ncaps'])
+    if usencaps > 0:
+        #
+        # A row of a FITS table in which no polygon has more than one cap
+        # holds XCAPS as a 3-vector and CMCAPS as a scalar.
+        #
+        p['x'] = np.atleast_2d(p['x'])
+        p['cm'] = np.atleast_1d(p['cm'])
     in_polygon = np.ones((npoints,), dtype=bool)
     for icap in range(usencaps):
         if is_cap_used(p['use_caps'], icap):
